@@ -3,7 +3,22 @@ from . import ref
 from .c01_replay import _cfg
 
 
-def replay_roundtrip(msgs, enc, blocked, cfg, many=None, closes=1):
+def replay_roundtrip(msgs, enc, blocked, cfg, many=None, closes=1, raise_max=None):
+    from cardutil import mciipm          # (imported before the configuration is touched: the application changes it at run time)
+    from cardutil import config as _config
+    old = _config.config.get('MAX_VBS_RECORD_LENGTH')
+    if raise_max:
+        _config.config['MAX_VBS_RECORD_LENGTH'] = raise_max
+    try:
+        return _replay_roundtrip(msgs, enc, blocked, cfg, many, closes)
+    finally:
+        if old is None:
+            _config.config.pop('MAX_VBS_RECORD_LENGTH', None)
+        else:
+            _config.config['MAX_VBS_RECORD_LENGTH'] = old
+
+
+def _replay_roundtrip(msgs, enc, blocked, cfg, many=None, closes=1):
     from cardutil import mciipm
     cfgs = _cfg(cfg)
     ms = [ref.concrete_msg(m, cfgs) for m in msgs]
